@@ -521,6 +521,19 @@ class Anchors:
         except Exception as ex:  # noqa
             self._fail(name, relpath, ", ".join(classes), what, ex)
 
+    def fresh(self, name, targets, what):
+        """Structural anchor: none of the listed methods (relpath, qualname) returns `self` (or a plain alias of it) except under a test
+        of its own `copy` argument: the result of a table operation is a new object, never the input under another name."""
+        try:
+            found = []
+            for relpath, qual in targets:
+                src, tree = self.load(relpath)
+                found += [f"{relpath}::{qual}: {x}" for x in returns_self_sites(find_def(tree, qual))]
+            d = f"Definition {name} : bool := {'true' if not found else 'false'}."
+            self._record(name, targets[0][0], ", ".join(q for _, q in targets)[:300], what, ("no method returns its receiver" if not found else "; ".join(found))[:1500], d)
+        except Exception as ex:  # noqa
+            self._fail(name, targets[0][0], "", what, ex)
+
     def render(self, pid: str) -> str:
         head = ("(* GENERATED by /verif/harness/translate.py from the current /repo working tree.\n"
                 "   Do not edit: rewritten on every check run. *)\n"
@@ -599,6 +612,55 @@ def forwards(fn: ast.AST, callee_names: tuple, params: list, expected: dict) -> 
             if b.get(opt) not in accepted:
                 return False
     return True
+
+
+def returns_self_sites(fn: ast.AST) -> list:
+    """`return self` (or `return x` after `x = self`) statements of a method that are not guarded by a test mentioning its `copy`
+    argument.  Purely syntactic and conservative (an alias is any name ever assigned the bare name `self`)."""
+    if not isinstance(fn, (ast.FunctionDef, ast.AsyncFunctionDef)):
+        raise Untranslatable("not a function")
+    aliases = {"self"}
+    for node in ast.walk(fn):
+        if isinstance(node, ast.Assign) and isinstance(node.value, ast.Name) and node.value.id == "self":
+            for t in node.targets:
+                if isinstance(t, ast.Name):
+                    aliases.add(t.id)
+    out = []
+
+    def visit(node, guarded):
+        for ch in ast.iter_child_nodes(node):
+            if isinstance(ch, (ast.FunctionDef, ast.AsyncFunctionDef, ast.Lambda, ast.ClassDef)):
+                continue
+            g = guarded
+            if isinstance(ch, ast.If) and any(isinstance(x, ast.Name) and x.id == "copy" for x in ast.walk(ch.test)):
+                g = True
+            if isinstance(ch, ast.Return) and isinstance(ch.value, ast.Name) and ch.value.id in aliases and not g:
+                # `out = self` in the else-branch of `if copy:` followed by a common `return out` is the documented in-place form
+                if ch.value.id != "self" and _alias_only_under_copy(fn, ch.value.id):
+                    pass
+                else:
+                    out.append(f"line {ch.lineno}: return {ch.value.id}")
+            visit(ch, g)
+    visit(fn, False)
+    return out
+
+
+def _alias_only_under_copy(fn, name):
+    """every `name = self` assignment sits under an `if` testing `copy`"""
+    ok = True
+
+    def visit(node, guarded):
+        nonlocal ok
+        for ch in ast.iter_child_nodes(node):
+            g = guarded
+            if isinstance(ch, ast.If) and any(isinstance(x, ast.Name) and x.id == "copy" for x in ast.walk(ch.test)):
+                g = True
+            if isinstance(ch, ast.Assign) and isinstance(ch.value, ast.Name) and ch.value.id == "self" \
+                    and any(isinstance(t, ast.Name) and t.id == name for t in ch.targets) and not g:
+                ok = False
+            visit(ch, g)
+    visit(fn, False)
+    return ok
 
 
 def assigned_state(tree: ast.AST, classname: str) -> set:
